@@ -6,7 +6,7 @@ import props as P
 from props_struct import _sizes, _nontrivial_hist
 
 ATTR_KINDS = ("expand", "bfs", "dfs", "min", "target", "cands", "seeds", "sets", "seeds", "cands", "reclaim", "pickle", "block")
-SKIP_KINDS = ATTR_KINDS + ("skipmin", "skiprem", "skip")
+SKIP_KINDS = ATTR_KINDS + ("skipmin", "skiprem", "skip", "scc")
 
 def verdict_violations(pid, w, kinds=("cands", "seeds", "sets"), skip_ok=True):
     out = []
@@ -61,7 +61,8 @@ def _attr_history_run(pid, tier, seed, kinds, count_q, count_t, pred, rule, cfg_
         n = len(rules.splitlines())
         cfg = cfg_gen(rng) if cfg_gen else {}
         h = H.gen_history(rng, n, max_len=_sizes(tier, *max_len), kinds=kinds)
-        cases.append({"rules": rules, "config": cfg, "history": h, "attr": True, "pipe": pipe, "sym": sym})
+        cases.append({"rules": rules, "config": cfg, "history": h, "attr": True, "pipe": pipe, "sym": sym,
+                      "nomodel": any(o[0] in ("scc", "build") for o in h)})
     pre = load_corpus(pid)
     for c in pre:
         c["attr"] = True; c.setdefault("pipe", pipe); c.setdefault("sym", sym)
@@ -139,7 +140,34 @@ def run_C01(tier, seed):
             continue            # the strategy did not report completion
         msgs = verdict_violations("C01", w, kinds=("seeds",))
         if not msgs and w.get("global_verdict") not in (None, "ok"):
-            msgs = [{"sig": "global-" + w["global_verdict"].split(":")[0], "what": f"strategy {st}: seeds of all expanded nodes vs all attractors of the network: {w['global_verdict']}"}]
+            sig = "global-" + w["global_verdict"].split(":")[0]
+            detail = ""
+            if sig == "global-dup" and st[0] == "scc":
+                # which nodes report the duplicated attractor?  (known finding D15: the source-SCC strategy attaches
+                # sub-diagrams only along one SCC at a time, so a node can be a subspace of another expanded node
+                # without being its descendant; both then own the attractors of the smaller one)
+                items = [it for it in w["steps"][-1]["meta"]["attr"] if it["exp"] and it.get("seeds")]
+                ns, es = parse_dump(w["steps"][-1]["real"])
+                desc = {i: set() for i in range(len(ns))}
+                for a_, b_, _ in es:
+                    desc[a_].add(b_)
+                changed = True
+                while changed:
+                    changed = False
+                    for a_ in desc:
+                        new_ = set().union(*[desc[b_] for b_ in desc[a_]]) - desc[a_] if desc[a_] else set()
+                        if new_:
+                            desc[a_] |= new_; changed = True
+                dupstate = w["global_verdict"].split(":")[1]
+                att = next((a for a in w["attractors"] if dupstate in a), [])
+                owners = [it for it in items if any(x in att for x in it["seeds"])]
+                if len(owners) >= 2 and all(
+                        any(P._subspace_s(x["space"], y["space"]) and x["id"] not in desc[y["id"]] and x["id"] != y["id"] for y in owners) or
+                        any(P._subspace_s(y["space"], x["space"]) and y["id"] not in desc[x["id"]] and x["id"] != y["id"] for y in owners)
+                        for x in owners):
+                    sig = "scc-duplicate-in-nested-unconnected-nodes"
+                    detail = f"; owners {[(o['id'], o['space']) for o in owners]} are nested spaces not connected by a path"
+            msgs = [{"sig": sig, "what": f"strategy {st}: seeds of all expanded nodes vs all attractors of the network: {w['global_verdict']}{detail}"}]
         for msg in msgs:
             viol.append({"property": "C01", "signature": "C01:" + msg["sig"], "what": msg["what"], "case": w["case"], "failing_input": True})
         if not msgs and not w["case"].get("nomodel"):
